@@ -458,6 +458,43 @@ pub(crate) async fn run_actor_lifecycle<T: Actor>(
     mut receiver: mpsc::Receiver<MailboxMessage<T>>,
     mut terminate_receiver: mpsc::Receiver<ControlSignal>,
 ) -> ActorResult<T> {
+    use futures::FutureExt;
+
+    let outcome = std::panic::AssertUnwindSafe(run_actor_lifecycle_inner(
+        args,
+        actor_ref,
+        &mut receiver,
+        &mut terminate_receiver,
+    ))
+    .catch_unwind()
+    .await;
+
+    // However the actor ended (completion, failure or panic), no envelope may outlive it.
+    // A sender that obtained its mailbox permit just before the mailbox is closed still pushes
+    // its envelope afterwards. If the receiver were simply dropped, such an envelope would stay
+    // in the channel forever - the envelope holds a sender, so the channel is never freed - and
+    // an `ask` waiting for its reply would never return.
+    receiver.close();
+    terminate_receiver.close();
+    while receiver.try_recv().is_ok() {}
+    if receiver.capacity() != receiver.max_capacity() {
+        // Some sender still owns a permit and may push at any moment: keep the closed mailbox
+        // alive in a reaper that drops whatever arrives, until no sender is left.
+        tokio::spawn(async move { while receiver.recv().await.is_some() {} });
+    }
+
+    match outcome {
+        Ok(result) => result,
+        Err(panic) => std::panic::resume_unwind(panic),
+    }
+}
+
+async fn run_actor_lifecycle_inner<T: Actor>(
+    args: T::Args,
+    actor_ref: ActorRef<T>,
+    receiver: &mut mpsc::Receiver<MailboxMessage<T>>,
+    terminate_receiver: &mut mpsc::Receiver<ControlSignal>,
+) -> ActorResult<T> {
     let actor_id = actor_ref.identity();
 
     #[cfg(feature = "tracing")]
